@@ -91,8 +91,9 @@ def rule_weight(ctx, TM):
     if ret[0] == "call" and ret[1].rsplit("::", 1)[-1] in ("unwrap_or",) and len(ret[2]) == 2:
         d = ret[2][1]
         src = P.strip(ret[2][0], calls=False)
-        if d[0] == "float" and 0.0 <= f32_of_bits(d[1]) <= 1.0 and src[0] == "call" and "float_parse" in src[1] or \
-                (d[0] == "float" and src[0] == "call" and src[1].endswith("for f32>::from_str") and 0.0 <= f32_of_bits(d[1]) <= 1.0):
+        is_parse = src[0] == "call" and ("float_parse" in src[1] or src[1].endswith("for f32>::from_str") or
+                                         (src[1] == "core::str::<impl str>::parse" and pf.local_ty(0) == "f32"))
+        if d[0] == "float" and 0.0 <= f32_of_bits(d[1]) <= 1.0 and is_parse:
             okd = True
             # the parsed text is the parameter or the parameter minus one leading byte (guarded by starts_with ':')
             txt = P.alts(P.strip(src[2][0]))
@@ -103,6 +104,12 @@ def rule_weight(ctx, TM):
                     continue
                 if sl and sl[1] == 1 and sl[2] is None:
                     continue
+                # value.strip_prefix(':').unwrap_or(value)
+                if a[0] == "call" and a[1].rsplit("::", 1)[-1] == "unwrap_or" and len(a[2]) == 2 and P.strip(a[2][1]) == ("param", 1):
+                    sp = P.strip(a[2][0], calls=False)
+                    if sp[0] == "call" and sp[1].rsplit("::", 1)[-1] == "strip_prefix" and P.strip(sp[2][0]) == ("param", 1) and \
+                            (P.strip(sp[2][1]) in (("char", ord(":")), ("str", ":")) or P.strip(sp[2][1])[:2] == ("char", ord(":"))):
+                        continue
                 okd = False
     if okd:
         ctx.ok(rule, {"weight_parser": pf.path, "default": f32_of_bits(ret[2][1][1]), "parse": "f32::from_str of the tail without its ':'"}, sample=True)
